@@ -110,7 +110,7 @@ def plan(tier, seed):
     out = []
     for key, n in ((("default", ""), 110), (("jcl", ""), 14), (("upper", ""), 14), (("default", "pre"), 24), (("default", "comments"), 24), (("default", "split"), 24), (("align_a", ""), 8), (("skip1", ""), 8), (("caseonly", ""), 8)):
         out.extend(r.sample([j for j in by[key] if not j[0].startswith("gen:")], n))
-    # generated designs: all of them under the hand-written configurations; under the documented configurations a seeded six each
+    # generated designs: all of them under the hand-written configurations; under the documented configurations a seeded six each (two for each documented option value)
     gen = [j for j in uni if j[0].startswith("gen:")]
     out.extend(j for j in gen if not j[1].startswith("doc:"))
     bydoc = {}
@@ -118,7 +118,7 @@ def plan(tier, seed):
         if j[1].startswith("doc:"):
             bydoc.setdefault(j[1], []).append(j)
     for cfg in sorted(bydoc):
-        out.extend(r.sample(bydoc[cfg], 6))
+        out.extend(r.sample(bydoc[cfg], 2 if cfg.startswith("doc:values:") else 6))
     out.extend(r.sample([j for j in uni if j[1].startswith("doc:") and not j[0].startswith("gen:")], 12))
     return sorted(out)
 
